@@ -58,6 +58,8 @@ type cpCase struct {
 	// that keep pushing while it holds the eviction lock, the write buffer reaches half its capacity during the call and
 	// InvalidateAll has to fall back to removing the rest entry by entry after releasing the lock.
 	StormInvalidateAll bool `json:"storm_invalidate_all,omitempty"`
+	// ManyInvalidateAll: InvalidateAll is a common operation (3 %) instead of a rare one
+	ManyInvalidateAll bool `json:"many_invalidate_all,omitempty"`
 	// ShrinkAtEnd (bound oracle only): after the final state has been recorded the maximum is lowered to 0 and maintenance
 	// runs once more; everything of positive weight must go
 	ShrinkAtEnd bool `json:"shrink_at_end,omitempty"`
@@ -92,6 +94,7 @@ type cpResult struct {
 	Panics     []any
 	Fired      int
 	Trace      []string
+	ReadBuf    int // recorded reads still sitting in the read buffer after the final maintenance runs
 	Expired    int // entries in the table that are expired at the end (not visible)
 	Evictions  int
 	PhaseReads int
@@ -441,7 +444,7 @@ func runCP(c cpCase, s3 bool) *cpResult {
 							if c.StormInvalidateAll && rng.Intn(1200) == 0 {
 								kind = "invalidateall"
 							}
-						} else if x == 0 {
+						} else if x == 0 || (c.ManyInvalidateAll && x < 12) {
 							kind = "invalidateall"
 						} else if x == 1 {
 							kind = "setmaximum"
@@ -466,6 +469,7 @@ func runCP(c cpCase, s3 bool) *cpResult {
 		}
 	}
 	res.Lookups, res.Found = r.lookups.Load(), r.found.Load()
+	res.ReadBuf = r.cache.VerifReadBufferLen()
 	for k, v := range r.cache.All() {
 		res.Present[k] = v
 		if e, ok := r.cache.GetEntryQuietly(k); ok {
@@ -731,20 +735,22 @@ func cpSig(c cpCase, res *cpResult) uint64 {
 }
 
 type cpOracle struct {
-	prop, test, rule string
-	s3               bool
-	needBound        bool
-	check            func(cpCase, *cpResult) error
-	nontrivial       func(cpCase, *cpResult) bool
-	forceStats       bool
-	forceExpiry      bool
-	storms           bool // half of the S4 cases are write storms
+	prop, test, rule  string
+	s3                bool
+	needBound         bool
+	check             func(cpCase, *cpResult) error
+	nontrivial        func(cpCase, *cpResult) bool
+	forceStats        bool
+	forceExpiry       bool
+	storms            bool // half of the S4 cases are write storms
+	manyInvalidateAll bool
 }
 
 func runCPProp(t *testing.T, oc cpOracle) {
 	substrate := "free-running goroutines (S4): 2-10 goroutines x 20-1500 PRNG-driven operations per phase, 1-3 phases with the manual clock advanced only at the barriers between phases, GOMAXPROCS 3..16, optional yields/sleeps at the verif hook points; "
 	gen := func(t *rapid.T) cpCase {
 		c := genCPS4(t, oc.needBound)
+		c.ManyInvalidateAll = oc.manyInvalidateAll && rapid.Bool().Draw(t, "manyia")
 		if oc.storms && rapid.IntRange(0, stormOdds(oc.prop)).Draw(t, "storm") == 0 {
 			c.Storm = true
 			c.Goroutines = rapid.IntRange(6, 16).Draw(t, "stormg")
@@ -927,4 +933,18 @@ func stormOdds(prop string) int {
 		return 1
 	}
 	return 4
+}
+
+// ---- C17, cache-level clause under concurrency: the read buffer has ONE consumer at a time ------------------------
+
+func TestC17_S4CacheReads(t *testing.T) {
+	runCPProp(t, cpOracle{prop: "C17", test: "S4CacheReads", needBound: true, manyInvalidateAll: true,
+		check: func(c cpCase, res *cpResult) error {
+			if res.ReadBuf != 0 {
+				return fmt.Errorf("at quiescence, after maintenance has run with nothing else going on, the read buffer still holds %d recorded reads (they are never delivered: a wedged ring)", res.ReadBuf)
+			}
+			return cpBookkeeping(c, res)
+		},
+		rule:       "bounded caches with readers, writers and - in half of the cases frequently - InvalidateAll callers (everything that drains the read buffer: maintenance runs on callers and executor goroutines, InvalidateAll); oracle at quiescence: after the final maintenance runs the read buffer is empty (every recorded read was delivered or discarded by a drain, none is stuck) and the policy's structures pass the audit; non-trivial = >= 200 lookups",
+		nontrivial: func(c cpCase, r *cpResult) bool { return r.Lookups >= 200 }})
 }
